@@ -67,10 +67,40 @@ def translate_and_build(prop):
                 problems.append("generated-source tie: %s `%s` is %s" % (r["file"], r["function"], r["status"]))
         by_name = {(r["file"], r["function"], r["lean_name"]): r for r in recs}
         discharged = 0
+        # one `lake build` for all groups of this property (lake's start-up — hashing the whole import closure — is the
+        # dominant cost of a no-op build); only when it fails are the groups built one by one to find out which stand
+        targets = ["Qv.Proofs.GenEq." + g for g in groups]
+        ball = subprocess.run(["lake", "build"] + targets, cwd=common.LEAN, capture_output=True, text=True)
+        built_of = {g: True for g in groups} if ball.returncode == 0 else None
+        names_of = {}
+        for g in groups:
+            names = []
+            for e in entries:
+                if e["group"] == g:
+                    lean_name = "Qv.Gen." + e.get("lean", e["func"].split(".")[-1])
+                    r = by_name[(e["file"], e["func"], lean_name)]
+                    names.append((r, [r["theorem"]] + ["Qv.Gen." + t for t in e.get("extra_theorems", [])]))
+            names_of[g] = names
+        all_out = ""
+        if built_of is not None:
+            audit = "".join("import %s\n" % t for t in targets) + "".join(
+                "#print axioms %s\n" % n for g in groups for _, ns in names_of[g] for n in ns)
+            tmp = os.path.join(common.LEAN, ".lake", "audit_gen_%s_all_%d.lean" % (prop, os.getpid()))
+            open(tmp, "w").write(audit)
+            try:
+                a = subprocess.run(["lake", "env", "lean", tmp], cwd=common.LEAN, capture_output=True, text=True)
+            finally:
+                os.unlink(tmp)
+            all_out = a.stdout + a.stderr
         for g in groups:
             target = "Qv.Proofs.GenEq." + g
-            b = subprocess.run(["lake", "build", target], cwd=common.LEAN, capture_output=True, text=True)
-            built = b.returncode == 0
+            if built_of is not None:
+                built, out, names = True, all_out, names_of[g]
+            else:
+                b = subprocess.run(["lake", "build", target], cwd=common.LEAN, capture_output=True, text=True)
+                built = b.returncode == 0
+                names = names_of[g]
+                out = ""
             if not built:
                 log = b.stdout + b.stderr
                 errs = [l for l in log.splitlines() if l.startswith("error:") and "build failed" not in l
@@ -87,14 +117,7 @@ def translate_and_build(prop):
                 differing = [n for n in gnames if found.get(n, {}).get("input") is not None]
                 for n in differing + [n for n in gnames if n not in differing]:
                     problems.append("generated-source tie: " + gen_search.describe(n, found.get(n, dict(unavailable="not run"))))
-            names = []
-            for e in entries:
-                if e["group"] == g:
-                    lean_name = "Qv.Gen." + e.get("lean", e["func"].split(".")[-1])
-                    r = by_name[(e["file"], e["func"], lean_name)]
-                    names.append((r, [r["theorem"]] + ["Qv.Gen." + t for t in e.get("extra_theorems", [])]))
-            out = ""
-            if built:
+            if built and built_of is None:
                 audit = "import %s\n" % target + "".join("#print axioms %s\n" % n for _, ns in names for n in ns)
                 tmp = os.path.join(common.LEAN, ".lake", "audit_gen_%s_%s_%d.lean" % (prop, g, os.getpid()))
                 open(tmp, "w").write(audit)
